@@ -14,7 +14,7 @@ import kanirun
 import mirlib
 import mirsym as ms
 import z3
-from vcommon import Outcome, Findings, new_replay_dir, src_ref, tier
+from vcommon import REPO, Outcome, Findings, new_replay_dir, src_ref, tier
 
 OAL_TOML = '[api]\nmain = "main.oal"\ntarget = "out.yaml"\n'
 
@@ -75,6 +75,18 @@ HISTORIES = {
         "script": [("open", "main.oal", 'use "m.oal";\nres / on get -> <t>;\n'), ("open", "m.oal", "let t = {;\n"), ("sync", "main.oal"), ("close", "m.oal")],
         "probe": ("main.oal", {"line": 1, "character": 18}),
     },
+    "compile-error-after-a-good-state": {
+        "disk": {"main.oal": "res / on get -> <{}>;\n"},
+        "script": [("open", "main.oal", "let a = { 'x num };\nlet b = a;\nres /r on get -> <b>;\n"), ("sync", "main.oal"),
+                   ("change", "main.oal", [(R(1, 8, 1, 9), "z")])],
+        "probe": ("main.oal", {"line": 2, "character": 18}),
+    },
+    "import-error-after-a-good-state": {
+        "disk": {"main.oal": 'use "m.oal" as m;\nlet b = m.t;\nres / on get -> <b>;\n', "m.oal": "let t = {};\n"},
+        "script": [("open", "main.oal", 'use "m.oal" as m;\nlet b = m.t;\nres / on get -> <b>;\n'), ("sync", "main.oal"),
+                   ("open", "m.oal", "let t = {} & num;\n")],
+        "probe": ("main.oal", {"line": 2, "character": 18}),
+    },
     "module-error-close-and-reopen": {
         "disk": {"main.oal": 'use "m.oal";\nres / on get -> <t>;\n', "m.oal": "let t = {};\n"},
         "script": [("open", "main.oal", 'use "m.oal";\nres / on get -> <t>;\n'), ("open", "m.oal", "let t = {;\n"), ("sync", "main.oal"),
@@ -120,6 +132,11 @@ def run_histories(tag="histories"):
             mism.append("%s: diagnostics differ: history %s vs fresh %s" % (name, json.dumps(da2)[:200], json.dumps(db2)[:200]))
         if fa != fb:
             mism.append("%s: definition answers differ: %s vs %s" % (name, json.dumps(fa)[:120], json.dumps(fb)[:120]))
+        for what in ("references", "prepare", "rename"):
+            xa, xb = norm(a.get(what), d1), norm(b.get(what), d2)
+            detail[name][what + "_equal"] = xa == xb
+            if xa != xb:
+                mism.append("%s: %s answers differ: %s vs %s" % (name, what, json.dumps(xa)[:120], json.dumps(xb)[:120]))
 
         return mism, detail
 
@@ -411,6 +428,35 @@ def check():
             o.inconc("Workspace::read_file: no path reads from disk")
     except KeyError as e:
         o.inconc(str(e)[:160])
+
+    # Folder::eval: what the request handlers answer from (the module set, the spec) is rebuilt from nothing on every
+    # evaluation - on every path both fields are overwritten, with None or with what this very evaluation loaded
+    try:
+        f_fe = ML.sel("lsp", "eval", arg0=r"&mut .*Folder")
+        o.functions.append(mirlib.func_ref(f_fe, "oal-client"))
+        srcm = open(os.path.join(REPO, "oal-client/src/lsp/mod.rs")).read()
+        mfo = re.search(r"pub struct Folder\s*\{(.*?)\n\}", srcm, re.S)
+        ffo = re.findall(r"^\s*(?:pub(?:\(\w+\))?\s+)?(\w+)\s*:", mfo.group(1), re.M) if mfo else []
+        state_fields = [k for k, n in enumerate(ffo) if n != "config"]
+        exf = mirlib.executor([ML])
+        n_ret, okf = 0, bool(state_fields)
+        for p in exf.run(f_fe, arg_names=["self", "ws"]):
+            if p.kind != "return":
+                continue
+            n_ret += 1
+            for k in state_fields:
+                st = [e for e in p.events if e[0] == "store" and e[1] == ("sym", "self") and e[2][:1] == (("f", k),)]
+                old = ("fld", ("deref", ("sym", "self")), k)
+                if not st or any(t == old for t in ms.subterms(st[-1][3])):
+                    okf = False
+                elif st[-1][3] != ("variant", "Option", "None", ()):
+                    # a value: it comes out of this evaluation's load / eval
+                    if not any(t[0] == "app" and t[1] in ("Workspace::load", "Workspace::eval") for t in ms.subterms(st[-1][3])):
+                        okf = False
+        mirlib.check_translator(o, exf, "Folder::eval")
+        structural("Folder::eval: on every path the module set and the spec are overwritten - with nothing, or with what this evaluation loaded (%s)" % ", ".join(ffo[k] for k in state_fields), okf and n_ret >= 3)
+    except Exception as e:
+        o.inconc("Folder::eval: %s" % str(e)[:160])
 
     o.samples = [{"harness": h, "verdict": r["verdict"], "covers": r["covers"]} for h, r in kres.items()] + \
                 [{"query": q["name"], "verdict": q["verdict"]} for q in o.queries if q["engine"].startswith("mirsym")][:10]
